@@ -10,7 +10,12 @@
 (*           else,                                                           *)
 (*   exp     what StubOps prescribes: the questions in steps (the types of   *)
 (*           one step in any order) and the result (groups of addresses in   *)
-(*           order, or the set of admissible error classes).                 *)
+(*           order, or the set of admissible error classes); `typed` =  the  *)
+(*           hosts entries of the name as typed: a resolver that consults    *)
+(*           the hosts table before applying the search list returns these   *)
+(*           and asks nothing (accepted as well).                            *)
+(* Only behaviours of the per-candidate reading are walked (ACTION_CONSTRAINT*)
+(* PerCandidateReading in the generated cfg).                                *)
 (* The driver runs the real Resolver on cfg / world; its recorded events are *)
 (* additionally judged by the monitor Trace_Stub.                            *)
 EXTENDS Stub, Json
@@ -24,6 +29,7 @@ Case ==
      exp   |-> [steps  |-> [i \in DOMAIN Prescribed.steps |->
                                [n |-> Prescribed.steps[i].n, ts |-> SetToSeq(Prescribed.steps[i].ts)]],
                 cands  |-> CandidatesOf(cfg, Strict),
+                typed  |-> HostsAsTyped(cfg),
                 result |-> [kind |-> result.kind, groups |-> result.groups, errs |-> SetToSeq(result.errs)]]]
 
 Emit == Done => PrintT(<<"REPLAY", ToJson(Case)>>)
